@@ -62,6 +62,10 @@ CLAIMED = {
          'every listed operator, comparison, increment, conversion to/from built-in integers and floating point, decimal text and numeric_limits is compared with GMP arithmetic on the value read from the limb array, reduced to two\'s complement of the storage width; limb types of 8/16/32/64 bits and limb counts from 2 to 256 (incl. Karatsuba sizes) make results independent of the limb split',
          'one listed known finding (Karatsuba multiply with a non-power-of-two limb count, vendored uintwide_t); operator~ of multi-word types is ill-formed on the pinned tree and excluded; to-float is checked as faithful rounding (the statement does not promise more); nondeterministic failures count when they reproduce at least once in three replays',
          'DESIGN.md section 5 C10'),
+ 'C17': ('exhaustive float exponent x 512-point mantissa lattice + rapidcheck ratios/decimal/dyadic/near-limit/random inputs + a replayed regression corpus of 108k inputs, vs GMP rationals on the bit-exact input; loop-iteration bound through hook H3',
+         'termination (iteration bound), positive denominator, sign, range, exactness for representable ratios and the stated error bound otherwise, for nine (component type, float type) pairs through the constructor and make_fraction; strict where the pinned implementation can be held to the property (integers; ratios when the float type has >= D+16 digits), and a regression corpus of inputs that currently satisfy the property inside the region where it cannot',
+         'one broad listed known finding: outside the strict regions make_fraction fails often (assertions, UB, wrong results, non-termination); there the check only protects the corpus inputs, so new defects confined to other inputs of that region are not seen. Termination is "within 1e5 loop iterations"',
+         'DESIGN.md section 5 C17'),
 }
 
 def main():
